@@ -138,6 +138,7 @@ pub fn run(req: &mut J) -> Result<J, String> {
         "config" => crate::cfg::run(req),
         "crash" => crate::inv::run_crash(req),
         "py_inventory" => crate::py::run(req),
+        "py_config" => crate::py::run_config(req),
         _ => Err(format!("unknown op {op}")),
     }
 }
